@@ -22,7 +22,7 @@ RULE = ("cases = fully annotated seeded programs x {unmutated, one mutation out 
         "(no severity:error) survivors are executed; distinct key = (site kind, check verdict, runtime outcome class)")
 ASSUME = ["generated unmutated programs are well typed by construction",
           "type-related runtime errors are recognised by the message templates listed in TEMPLATES"]
-BATCH = 10
+BATCH = 6
 FLOOR = {"quick": 15, "thorough": 25}
 BUDGET = {"quick": 45, "thorough": 840}
 E = G.E
